@@ -12,6 +12,7 @@ type VerifReadState struct {
 	Term               uint64
 	CommitIndex        uint64
 	RaftAppliedIndex   uint64
+	LastLogIndex       uint64
 	LastContact        time.Time
 	FSMIndex           uint64
 	FSMUpdateTime      time.Time
@@ -27,6 +28,7 @@ func (s *Store) VerifReadState() VerifReadState {
 		Term:               s.raft.CurrentTerm(),
 		CommitIndex:        s.raft.CommitIndex(),
 		RaftAppliedIndex:   s.raft.AppliedIndex(),
+		LastLogIndex:       s.raft.LastIndex(),
 		LastContact:        s.raft.LastContact(),
 		FSMIndex:           s.fsmIdx.Load(),
 		FSMUpdateTime:      s.fsmUpdateTime.Load(),
